@@ -40,8 +40,10 @@ Op == nops < MaxOps /\ nops' = nops + 1
 Observe == obs' = [cl |-> cl', invs |-> invs']
 
 (* caller c (idle, or done with an earlier call) calls with key k and runs up to its await *)
+(* ... also in the GAP between the end of an invocation (or a waiter's cancellation) and the loop running the scheduled
+   wake-ups: the newcomer is served by what is known at that very moment - a finished invocation's outcome at once *)
 Begin(c, k) ==
-  /\ Op /\ rdy = {} /\ cl[c].pc # "waiting"
+  /\ Op /\ cl[c].pc # "waiting"
   /\ IF LRU!Hit(entries, k, now, Bug)
        THEN LET i == entries[LRU!Idx(entries, k)].inv IN
             /\ entries' = LRU!Touch(entries, k, Bug)
